@@ -191,8 +191,35 @@ def flat_view(chk, rel, cls, meth):
     cache = chk.__dict__.setdefault("_c14_views", {})
     key = (rel, cls, meth)
     if key not in cache:
-        cache[key] = _flatten(chk, rel, chk.func(rel, f"{cls}.{meth}"), cls)
+        # the definition `cls` runs: its own or the one it inherits from a base class of the module
+        owner, fn0 = _method(chk.mod(rel), cls, meth)
+        if fn0 is None or owner == cls:
+            fn0 = chk.func(rel, f"{cls}.{meth}")
+        else:
+            # inherited: the normalised tree has the helper calls of the base class's method already written back with the base
+            # class's own helpers, which is not what runs when `cls` overrides one of them; start again from the source text
+            chk.func(rel, f"{owner}.{meth}")
+            raw = _raw_method(chk.mod(rel), owner, meth)
+            if raw is not None:
+                raw._qual = getattr(fn0, "_qual", f"{owner}.{meth}")
+                raw._parent = parent(fn0)
+                fn0 = raw
+        cache[key] = _flatten(chk, rel, fn0, cls)
     return cache[key]
+
+
+def _raw_method(mod, owner, meth):
+    """the method as written in the source file (no normalisation), or None"""
+    try:
+        tree = ast.parse(mod.src)
+    except SyntaxError:
+        return None
+    for c in tree.body:
+        if isinstance(c, ast.ClassDef) and c.name == owner:
+            for m in c.body:
+                if isinstance(m, ast.FunctionDef) and m.name == meth and not any(src(d).endswith(".setter") for d in m.decorator_list):
+                    return m
+    return None
 
 
 def flat_function(chk, rel, name):
@@ -624,15 +651,49 @@ class ViewedCheck:
             self._chk.func(rel, q)
             return flat_function(self._chk, rel, q)
         if rel == U.POISSON and q in VIEWED:
-            self._chk.func(rel, q)
-            return flat_view(self._chk, rel, *q.split("."))
+            return flat_view(self._chk, rel, *q.split("."))      # also resolves an inherited definition
         return self._chk.func(rel, q)
+
+    def mod(self, rel):
+        m = self._chk.mod(rel)
+        return _ModuleView(self._chk, rel, m) if rel == U.POISSON else m
 
     def __getattr__(self, name):
         return getattr(self._chk, name)
 
     def __setattr__(self, name, value):
         setattr(self._chk, name, value)
+
+
+class _ModuleView:
+    """the module, with the class nodes presenting the flat views of the entry points (for code that walks class bodies to
+    resolve inherited methods instead of asking the check for a function)"""
+
+    def __init__(self, chk, rel, mod):
+        self.__dict__.update(_chk=chk, _rel=rel, _mod=mod)
+
+    def cls(self, name):
+        node = self._mod.cls(name)
+        body, have = [], set()
+        for st in node.body:
+            if isinstance(st, ast.FunctionDef) and f"{name}.{st.name}" in VIEWED and \
+                    not any(src(d).endswith(".setter") for d in st.decorator_list):
+                body.append(flat_view(self._chk, self._rel, name, st.name))
+                have.add(st.name)
+            else:
+                body.append(st)
+        for q in sorted(VIEWED):
+            c, m = q.split(".")
+            if c == name and m not in have and _method(self._mod, name, m)[1] is not None:
+                body.append(flat_view(self._chk, self._rel, name, m))       # inherited, as this class runs it
+        new = ast.ClassDef(name=node.name, bases=node.bases, keywords=node.keywords, body=body, decorator_list=node.decorator_list)
+        ast.copy_location(new, node)
+        new._parent = parent(node)
+        new._qual = getattr(node, "_qual", name)
+        return new
+
+    def __getattr__(self, name):
+        return getattr(self._mod, name)
 
 
 # =========================================================================================================
@@ -1183,6 +1244,25 @@ def mode_loop(chk, cls, m):
         if isinstance(lp.target, ast.Tuple) and len(lp.target.elts) == 2 and isinstance(it, ast.Call) and src(it.func) == "enumerate" \
                 and it.args and src(it.args[0]).replace(" ", "") in ("rho.getGlobalIdxVals(0)", "phi.getGlobalIdxVals(0)"):
             return fn, lp, src(lp.target.elts[0]), src(lp.target.elts[1])
+    # the global index computed from the local one: I = <grid>.getLayout(<grid>.currentLayout).starts[0] + i
+    for lp in [n for n in ast.walk(fn) if isinstance(n, ast.For)]:
+        it = env.x(lp.iter)
+        li = None
+        if isinstance(lp.target, ast.Tuple) and len(lp.target.elts) == 2 and src(it).replace(" ", "") in ("rho.getCoords(0)", "phi.getCoords(0)"):
+            li = src(lp.target.elts[0])
+        elif isinstance(lp.target, ast.Name) and isinstance(it, ast.Call) and src(it.func) == "range" and len(it.args) == 1 and \
+                src(it.args[0]).replace(" ", "") in ("len(rho.getGlobalIdxVals(0))", "len(phi.getGlobalIdxVals(0))",
+                                                      "len(rho.getCoordVals(0))", "len(phi.getCoordVals(0))"):
+            li = lp.target.id
+        if li is None:
+            continue
+        for st in lp.body:
+            if isinstance(st, ast.Assign) and len(st.targets) == 1 and isinstance(st.targets[0], ast.Name):
+                v = env.x(st.value, use=st)
+                if any(same_expr(v, f"{g}.getLayout({g}.currentLayout).starts[0] + {li}") or same_expr(v, f"{g}.getGlobalIdxVals(0)[{li}]")
+                       for g in ("rho", "phi")) and not env.amb:
+                    # every use of the name expands to this expression: it is the text the tables must be indexed with
+                    return fn, lp, li, src(v)
     return fn, None, None, None
 
 
